@@ -138,6 +138,28 @@ def flows(expected: Sequence[NParam], actual: Sequence[NParam], npos: int, kws: 
     return out
 
 
+class _Eq(Obj):
+    """Model SigParameter / annotation with the equality of the real dataclasses, in the scenario
+    the soundness check has to cover as well: same-named parameters carry equal annotations."""
+
+    def key(self) -> Any:
+        a = self._attrs
+        if self._kind == "Ann":
+            return ("Ann", str(a["label"]).split(":", 1)[-1])
+        if self._kind == "SigParameter":
+            return ("SigParameter", a["name"], repr(a["kind"]), a["default"] is None, a["annotation"].key())
+        return (self._kind, id(self))
+
+    def __eq__(self, other: object) -> bool:
+        return isinstance(other, _Eq) and self.key() == other.key()
+
+    def __ne__(self, other: object) -> bool:
+        return not self.__eq__(other)
+
+    def __hash__(self) -> int:
+        return hash(self.key())
+
+
 class CompatModel:
     def __init__(self, prog: Program) -> None:
         self.prog = prog
@@ -155,10 +177,10 @@ class CompatModel:
     def _sig(self, sig: Sequence[NParam], side: str = "", log: Optional[List[Tuple[str, str]]] = None) -> Obj:
         params: Dict[str, Obj] = {}
         for kind, d, name in sig:
-            ann = Obj("Ann", label=f"{side}:{name}")
+            ann = _Eq("Ann", label=f"{side}:{name}")
             if log is not None:
                 ann._attrs["can_assign"] = (lambda other, ctx=None, a=ann: _record(log, a, other))
-            params[name] = Obj(
+            params[name] = _Eq(
                 "SigParameter",
                 name=name,
                 kind=Sym(f"ParameterKind.{kind}"),
@@ -166,10 +188,14 @@ class CompatModel:
                 annotation=ann,
                 get_annotation=(lambda a=ann: a),
             )
-        ret = Obj("Ann", label=f"{side}:return")
+        ret = _Eq("Ann", label=f"{side}:return")
         if log is not None:
             ret._attrs["can_assign"] = (lambda other, ctx=None, a=ret: _record(log, a, other))
-        return Obj("Signature", parameters=params, is_asynq=False, return_value=ret, callable=None)
+        # every field of the real dataclass exists on the model object (non-generic, plain signature)
+        return Obj(
+            "Signature", parameters=params, is_asynq=False, return_value=ret, callable=None, impl=None, has_return_annotation=True, allow_call=False, evaluator=None,
+            deprecated=None, typevars_of_params={}, all_typevars=set(),
+        )
 
     def accepts(self, expected: Sequence[NParam], actual: Sequence[NParam], log: Optional[List[Tuple[str, str]]] = None) -> Tuple[bool, Optional[str]]:
         def isinstance_hook(v: Any, cls: str) -> Optional[bool]:
